@@ -164,3 +164,10 @@ package json
 //@   modifies *
 //@ func tokenCanStartValue(tok token) (r bool)
 //@   pure
+
+// Evaluating a JSON object: a key that evaluated to null or to an unknown value is reported
+// (or remembered) and skipped; it is never turned into a string (cty panics on both).
+//@ func (e *expression) Value(ctx *hcl.EvalContext) (r cty.Value, diags hcl.Diagnostics)
+//@   modifies *
+//@   guard-call nullkey:  "AsString" lastresult(IsNull) == false
+//@   guard-call knownkey: "AsString" lastresult(IsKnown) == true
